@@ -101,6 +101,12 @@ def preds_for(cls: str, field_variant: bool, req: str = "A") -> list:
         return [str, P[str]]
     if cls == "exC":
         return [None, P[None], type(None)]          # the exact origin None
+    if req == "W":
+        # a location typed NewType / Annotated is met twice: as spelled and unwrapped (int); predY / predN must answer alike at both
+        if cls == "predY":
+            return [P.ANY, ~P[str], P.ANY & ~P[str], ~(P[bytes] | P[str]), ~P[None], ~P[HasFrobnicate]]
+        if cls == "predN":
+            return [P[str] | P[bytes], "other", cabc.Mapping, P[str] & P.ANY, HasFrobnicate, P[M].fld]
     if req in ("U", "F"):
         if cls == "predY":
             return [P.ANY, ~P[str], ~P[int], P.ANY & ~P[str], ~(P[int] | P[str]), ~P[None]]
@@ -166,7 +172,7 @@ def build_and_run(case: dict, gseed: int) -> dict:
     req = case.get("req", "A")
     field_variant = tail and rng.random() < 0.4 and req == "A"
     unnorm = unnorm_types(req)
-    req_tp = int if req == "A" else unnorm[rng.randrange(len(unnorm))]
+    req_tp = int if req == "A" else rng.choice([UserId, typing.Annotated[int, "meta"]]) if req == "W" else unnorm[rng.randrange(len(unnorm))]
     req_name = "LoaderRequest" if side == "load" else "DumperRequest"
     facade = e["loader"] if side == "load" else e["dumper"]
     Chain, bound, ChainingProvider = e["Chain"], e["bound"], e["ChainingProvider"]
@@ -175,7 +181,7 @@ def build_and_run(case: dict, gseed: int) -> dict:
     desc = []
 
     def probe(request):
-        return request.last_loc.type is req_tp
+        return request.last_loc.type is req_tp or (req == "W" and request.last_loc.type is int)
 
     providers = []
     for idx, p in enumerate(rec, start=1):
@@ -686,6 +692,30 @@ def run(ctx: Ctx) -> None:
     nested_scenarios(ctx)
     recursive_chains(ctx)
     wrapped_location_chains(ctx)
+    # spec/RouterWrap.tla: locations typed NewType / Annotated - the code-shaped semantics (searched as spelled, then unwrapped by a new
+    # request) replayed on the real retort; recipes whose result composes a link twice are the recorded finding
+    cfg = make_cfg(constants=dict(MaxLen=2 if quick else 3, EmitCases=True), invariants=["WrapInvisible", "ServedSubset", "EmitCase"])
+    res = run_tlc(ctx.scratch, "RouterWrap", cfg, tag="RouterWrap", timeout_s=1200)
+    ctx.add_tlc(res, f"exhaustive MaxLen={2 if quick else 3}, request typed NewType / Annotated")
+    if not res.ok:
+        ctx.model_violation(res, "RouterWrap: the wrapper is not invisible although every predicate pins a type")
+    wcases = list(res.records())
+    for r in wcases:
+        ctx.case("wrap" + _short(r["rec"]), nontrivial=any(p["c"] == "predY" for p in r["rec"]))
+    replay_cases(ctx, wcases, ctx.seed + 11)
+    n_twice = sum(1 for r in wcases if r["twice"])
+    ctx.extra["wrapped_recipes"] = len(wcases)
+    ctx.extra["wrapped_recipes_composing_a_link_twice"] = n_twice
+    if n_twice:
+        w = min((r for r in wcases if r["twice"]), key=lambda r: len(r["rec"]))
+        ctx.violation({"what": "chain_link_applied_again_after_unwrapping", "via": "RouterWrap"},
+                      f"RouterWrap.tla, confirmed by replay on the real retort: {n_twice} of {len(wcases)} recipes compose a link more than once for a "
+                      f"location typed NewType / Annotated, e.g. {_short(w['rec'])}: term {w['term']}", {"case": w})
+    cfg = make_cfg(constants=dict(MaxLen=2, EmitCases=False), invariants=["ChainOnceW"])
+    res = run_tlc(ctx.scratch, "RouterWrap", cfg, tag="RouterWrap_once", expect_violation=True, timeout_s=600)
+    ctx.add_tlc(res, "ChainOnceW on the code-shaped semantics (violated: the recorded finding; witness [predY/last])")
+    if res.ok:
+        raise MachineryError("RouterWrap: ChainOnceW holds on the code-shaped semantics although the replay agrees with it: model and finding disagree")
     # spec mutant: non-vacuity of the model-level check
     cfg = make_cfg(constants=dict(MaxLen=2, ResetComboOnSingle=False, WithTail=False, Req='"A"', EmitCases=False), invariants=INVS)
     res = run_tlc(ctx.scratch, "Router", cfg, tag="Router_mutant", expect_violation=True, timeout_s=600)
